@@ -135,6 +135,7 @@ def check(tier, seed):
         hist = long_history(random.Random(seed * 7919 + 15), nh)
         c.extra["long_history_calls"] = len(hist)
         io_hist = lib.run_lines([exe], hist, par=1)   # its own process: line i is exactly the i-th is_bfs_reachable call of that thread
+        lib.config_differential(c, "c15", ["c15.cpp"], cases, lib.run_lines([exe], cases), judge=judge, libs=LIBS, limit=1500)
         io = lib.run_lines([exe], cases, par=1)      # ONE process for the whole stream: a long history of calls (tens of thousands of BFS queries) in one thread
         mcases = []
         for cs, o in zip(cases, io):
